@@ -38,7 +38,7 @@ PROPERTIES = {
         units=['wire', 'kani_wire'],
         canaries=['wire'],
         counterexample=cex.cex_c07,
-        extra=[validate.bincode_golden, validate.frame_boundary],
+        extra=[validate.bincode_golden, validate.frame_boundary, validate.decode_sweep],
         scope='exact byte layout of requests and responses (writer postcondition independent of the reader: preamble(version) ++ '
               'frame(bincode header) ++ frame(body)), lossless round trip and rejection of every strict prefix as lemmas over writer and reader '
               'contracts, readers accept exactly the valid messages and never panic, extensions never travel and decoded messages start with '
@@ -65,6 +65,7 @@ PROPERTIES = {
         units=['wire', 'kani_wire', 'timeout', 'kani_timeout'],
         canaries=['wire', 'streams'],
         counterexample=cex.cex_c06,
+        extra=[validate.decode_sweep],
         scope='NARROW: every function anemo itself runs on attacker-controlled bytes before the user service is called returns an error instead '
               'of panicking, for every byte string: read_version_frame (Kani, all inputs), read_request / read_response, from_raw, Version::new, '
               'StatusCode::new, try_parse_timeout, both Timeout::call, and BiStreamRequestHandler::handle swallows the error so only that stream ends. '
